@@ -75,6 +75,22 @@ SPECS = {
         ("src/sqpack/data.rs", "Block"),
         ("src/sqpack/data.rs", "BlockHeader"),
     ],
+    "BinrwMdl": [
+        ("src/model.rs", "ModelFileHeader"),
+        ("src/model.rs", "MeshLod"),
+        ("src/model.rs", "Mesh"),
+        ("src/model.rs", "Submesh"),
+        ("src/model.rs", "BoneTable"),
+        ("src/model.rs", "BoneTableV2"),
+        ("src/model.rs", "BoundingBox"),
+        ("src/model.rs", "TerrainShadowMesh"),
+        ("src/model.rs", "TerrainShadowSubmesh"),
+        ("src/model.rs", "ShapeStruct"),
+        ("src/model.rs", "ShapeMesh"),
+        ("src/model.rs", "ShapeValue"),
+        ("src/model.rs", "ElementId"),
+        ("src/model.rs", "ModelData"),
+    ],
     "BinrwAux": [
         ("src/cmp.rs", "RacialScalingParameters"),
         ("src/tera.rs", "PlatePosition"),
